@@ -197,9 +197,28 @@ func propC14(g *G, n int) {
 			form = 0
 		}
 		var c *big.Int
-		switch g.pick(5) {
+		switch g.pick(6) {
 		case 0:
 			c = g.coef()
+		case 5: // almost a multiple of a power of ten: q*10^k + r with a sparse r below 10^k (a remainder that shows up in one
+			// stage of the reduction only: the last digit, a multiple of 2^64, a single digit somewhere in the zeros)
+			k := 1 + g.pick(120)
+			c = g.coefLen(1 + g.pick(34))
+			c.Mul(c, pow10(k))
+			var r *big.Int
+			switch g.pick(4) {
+			case 0:
+				r = big.NewInt(1)
+			case 1:
+				r = big.NewInt(int64(g.pick(1000)))
+			case 2:
+				r = new(big.Int).Lsh(big.NewInt(int64(1+g.pick(5))), 64)
+			default:
+				r = new(big.Int).Mul(big.NewInt(int64(1+g.pick(9))), pow10(g.pick(k)))
+			}
+			if r.Cmp(pow10(k)) < 0 {
+				c.Add(c, r)
+			}
 		case 1: // trailing decimal zeros to be folded into the exponent
 			c = g.coefLen(1 + g.pick(34))
 			c.Mul(c, pow10(g.pick(120)))
